@@ -474,6 +474,46 @@ func checkC04(c *Check) {
 					if appendsOnly(ci.Common().Args[0], vParam(nc, 1)) {
 						want["Request"] = true
 					}
+				case "Set":
+					// Set(key, reflect.ValueOf(v)) is what MapTo(v, (*T)(nil)) and Map(v) do
+					a := ci.Common().Args
+					val := asCall(a[1])
+					if val == nil || callName(&val.Call) != "reflect.ValueOf" {
+						return
+					}
+					v := val.Call.Args[0]
+					nilPtrTo := func(x ssa.Value) string {
+						if cst, isC := strip(x).(*ssa.Const); isC && cst.Value == nil {
+							if pt, isP := cst.Type().(*types.Pointer); isP {
+								return namedName(pt.Elem())
+							}
+						}
+						return ""
+					}
+					ifaceKey := "" // InterfaceOf((*T)(nil)) or TypeOf((*T)(nil)).Elem()
+					if k := asCall(a[0]); k != nil {
+						switch callName(&k.Call) {
+						case "inject.InterfaceOf":
+							ifaceKey = nilPtrTo(k.Call.Args[0])
+						case "(reflect.Type).Elem":
+							if k2 := asCall(k.Call.Args[0]); k2 != nil && callName(&k2.Call) == "reflect.TypeOf" {
+								ifaceKey = nilPtrTo(k2.Call.Args[0])
+							}
+						case "reflect.TypeOf":
+							// the dynamic type of the value itself (what Map does), or the same pointer type spelled as a nil constant
+							if strip(k.Call.Args[0]) == strip(v) || (nilPtrTo(k.Call.Args[0]) == "Request" && types.Identical(strip(k.Call.Args[0]).Type(), strip(v).Type())) {
+								if vParam(nc, 1)(v) {
+									want["Request"] = true
+								}
+							}
+						}
+					}
+					if ifaceKey == "Context" && isCtx(v) {
+						want["Context"] = true
+					}
+					if ifaceKey == "ResponseWriter" && vField(isCtx, "responseWriter")(v) {
+						want["ResponseWriter"] = true
+					}
 				}
 			})
 			c.Cond(want["Context"] && want["ResponseWriter"] && want["Request"], key+":request-services", p.FuncPos(nc), "Context, http.ResponseWriter (the wrapper) and *http.Request are mapped on the new request scope", "the per-request services are not all mapped on the request's own scope")
